@@ -379,10 +379,10 @@ func init() {
 		attr bool
 	}
 	for _, k := range []mk{
-		{"tunnel", c17Tunnel, "tunnel.go:pushInbound", true},
-		{"router", c17Router, "router.go:pushInbound", false},
-		{"grouptunnel", c17GroupTunnel, "tunnel.go:pushInbound", true},
-		{"grouprouter", c17GroupRouter, "router.go:pushInbound", false},
+		{"tunnel", c17Tunnel, "tunnel.go:", true},
+		{"router", c17Router, "router.go:", false},
+		{"grouptunnel", c17GroupTunnel, "tunnel.go:", true},
+		{"grouprouter", c17GroupRouter, "router.go:", false},
 		{"grouplayer-isolated", c17GroupLayer, "", false},
 	} {
 		for _, n := range []int{2, 3, 4, 5} {
@@ -409,11 +409,11 @@ func init() {
 			Run: k.f(100), Check: c17Oracle("C17", 100, k.site, k.attr),
 		})
 	}
-	register("both", &h.Scenario{Name: "C17-tunnel-burst3-between-turned-down-frames", Prop: "C17", P: 1, F: 0, D: 1, Run: c17TunnelNoise(3), Check: c17Oracle("C17", 3, "tunnel.go:pushInbound", true)})
-	register("both", &h.Scenario{Name: "C17-tunnel-burst3-mixed-telegram-shapes", Prop: "C17", P: 1, F: 0, D: 1, Run: c17Mixed(false), Check: c17Oracle("C17", 3, "tunnel.go:pushInbound", true)})
-	register("both", &h.Scenario{Name: "C17-router-burst3-mixed-telegram-shapes", Prop: "C17", P: 1, F: 0, D: 1, Run: c17Mixed(true), Check: c17Oracle("C17", 3, "router.go:pushInbound", false)})
-	register("both", &h.Scenario{Name: "C17-tunnel-parked-across-reconnect", Prop: "C17", P: 1, F: 0, D: 1, Run: c17TunnelReconnect(), Check: c17OracleR("C17", 5, "tunnel.go:pushInbound", false, true)})
+	register("both", &h.Scenario{Name: "C17-tunnel-burst3-between-turned-down-frames", Prop: "C17", P: 1, F: 0, D: 1, Run: c17TunnelNoise(3), Check: c17Oracle("C17", 3, "tunnel.go:", true)})
+	register("both", &h.Scenario{Name: "C17-tunnel-burst3-mixed-telegram-shapes", Prop: "C17", P: 1, F: 0, D: 1, Run: c17Mixed(false), Check: c17Oracle("C17", 3, "tunnel.go:", true)})
+	register("both", &h.Scenario{Name: "C17-router-burst3-mixed-telegram-shapes", Prop: "C17", P: 1, F: 0, D: 1, Run: c17Mixed(true), Check: c17Oracle("C17", 3, "router.go:", false)})
+	register("both", &h.Scenario{Name: "C17-tunnel-parked-across-reconnect", Prop: "C17", P: 1, F: 0, D: 1, Run: c17TunnelReconnect(), Check: c17OracleR("C17", 5, "tunnel.go:", false, true)})
 	// unbounded preemptions for the smallest burst (classic context bounding with P=2, no delay bound)
-	register("thorough", &h.Scenario{Name: "C17-tunnel-burst2-p2", Prop: "C17", P: 2, F: 0, D: 0, Run: c17Tunnel(2), Check: c17Oracle("C17", 2, "tunnel.go:pushInbound", true), MaxExe: 3000000})
+	register("thorough", &h.Scenario{Name: "C17-tunnel-burst2-p2", Prop: "C17", P: 2, F: 0, D: 0, Run: c17Tunnel(2), Check: c17Oracle("C17", 2, "tunnel.go:", true), MaxExe: 3000000})
 	register("thorough", &h.Scenario{Name: "C17-grouplayer-isolated-burst3-p2", Prop: "C17", P: 2, F: 0, D: 0, Run: c17GroupLayer(3), Check: c17Oracle("C17", 3, "", false), MaxExe: 3000000})
 }
